@@ -10,7 +10,7 @@ RULE = ('class = (function, |data| class, position class, target class, polynomi
 ASSUMPTIONS = ['zlib.crc32 is the ISO-HDLC CRC-32', 'bitwise division model written from the definition of a reflected CRC']
 ANCHORS = [('crc.py', 'crc_table'), ('crc.py', 'crc_back_table'), ('crc.py', 'crc'), ('crc.py', 'crc_back_pos'),
            ('crc.py', 'crc32_fix'), ('crc.py', 'crc32_fix_pos'), ('crc.py', 'crc32')]
-REQUIRED = ['crc32==zlib', 'crc-generic==bitwise', 'fix:crc==target', 'fixpos:crc==target', 'back==forward-state']
+REQUIRED = ['table-unchanged', 'crc32==zlib', 'crc-generic==bitwise', 'fix:crc==target', 'fixpos:crc==target', 'back==forward-state']
 NSHARDS = 14
 SAN = {'quick': (2, 6), 'thorough': (2, 4)}
 
@@ -44,6 +44,9 @@ def cases(tier, rng):
                 for finalc in ('zero', 'ones', 'rand'):
                     yield {'k': 'generic', 'width': width, 'init': initc, 'final': finalc,
                            'n': [0, 1, 5, 16, 33][(width + rep) % 5], 'pat': PATTERNS[(width + rep) % len(PATTERNS)]}
+        for width in (8, 8, 9, 12, 16, 24, 32, 33, 64):
+            for fin in ('ones', 'rand', 'zero'):
+                yield {'k': 'table-reuse', 'width': width, 'final': fin}
         # fixing helpers
         for n in [4, 5, 7, 8, 9, 16, 17, 32, 33, 64] + ([100, 257] if tier == 'thorough' else []):
             for t in TARGETS:
@@ -87,6 +90,20 @@ def run(case, ctx, rng):
         ctx.cls(('generic', w, case['init'], case['final']))
         got = call(lambda: C.crc(d, C.crc_table(Bits(P, w)), init, final))
         ctx.eq('crc-generic==bitwise', got, bitwise_crc(P, w, d, init, final), P=P, width=w, init=init, final=final, data=d)
+    elif k == 'table-reuse':
+        w = case['width']
+        P = rng.getrandbits(w) | (1 << (w - 1))
+        PB = Bits(P, w)
+        T = call(C.crc_table, PB)
+        ctx.cls(('table-reuse', w, case['final']))
+        if is_exc(T):
+            ctx.eq('crc-generic==bitwise', T, 'a table', P=P, width=w); return
+        snap = [(int(e.ival), e.size) for e in T]
+        for i in range(8):
+            init = rng.choice([0, rng.getrandbits(w), rng.getrandbits(8)]); final = _val(rng, case['final'], w)
+            d = rng.randbytes(rng.choice([1, 1, 2, 5, 40]))
+            ctx.eq('crc-generic==bitwise', call(C.crc, d, T, init, final), bitwise_crc(P, w, d, init, final), P=P, width=w, init=init, final=final, data=d, call_no=i, table='reused')
+        ctx.check('table-unchanged', [(int(e.ival), e.size) for e in T] == snap and (PB.ival, PB.size) == (P, w), 'table or polynomial modified by crc()', 'unchanged', P=P, width=w)
     elif k == 'fix':
         d = pattern(rng, case['n'], case['pat'])
         t = _target(rng, case['target'])
